@@ -583,8 +583,10 @@ func (e *Engine) evalOld(st *State, fr *Frame, at ssa.Instruction) Val {
 		return e.get(st, fr, arg)
 	}
 	saved := st.heap
+	savedCur := e.oldCurHeap
+	e.oldCurHeap = saved
 	st.heap = e.preHeap
-	defer func() { st.heap = saved }()
+	defer func() { st.heap = saved; e.oldCurHeap = savedCur }()
 	return e.reeval(st, fr, arg, 0)
 }
 
@@ -597,6 +599,20 @@ func (e *Engine) reeval(st *State, fr *Frame, v ssa.Value, depth int) Val {
 		return e.get(st, fr, v)
 	case *ssa.UnOp:
 		if x.Op == token.MUL {
+			switch x.X.(type) {
+			case *ssa.Alloc, *ssa.FreeVar:
+				// a local of the specification itself (escaped to a heap cell because a quantifier
+				// closure captures it): not program state, read it from the current heap
+				if e.oldCurHeap != nil {
+					pre := st.heap
+					st.heap = e.oldCurHeap
+					v := e.get(st, fr, x.X)
+					t := derefType(x.X.Type())
+					r := e.load(st, e.resolvePtr(st, v[0], t), t)
+					st.heap = pre
+					return r
+				}
+			}
 			p := e.reeval(st, fr, x.X, depth+1)
 			t := derefType(x.X.Type())
 			l := e.resolvePtr(st, p[0], t)
@@ -744,7 +760,11 @@ func (e *Engine) quantifier(st *State, fr *Frame, kind string, args []Val) *Term
 	if cl == nil {
 		engineErr("%s: body is not a closure literal", kind)
 	}
-	bv := BVar("i", SInt)
+	bvName := "i"
+	if len(cl.fn.Params) > 0 && cl.fn.Params[0].Name() != "" {
+		bvName = cl.fn.Params[0].Name()
+	}
+	bv := BVar(bvName, SInt)
 	rng := And(Le(lo, bv), Lt(bv, hi))
 	// small concrete ranges are expanded
 	if l, ok := lo.ConstInt(); ok {
